@@ -176,6 +176,27 @@ pub fn run() -> i32 {
     let _ = before_mixed;
     // blank and comment-only lines
     for t in ["", "   ", ";; only a comment", "  ;; indented comment"] { eval_text(t, &words, &mut tot); }
+    // ... and whole groups made of such lines (or of no line at all), in front of / between groups that do change the word: the tracer must never
+    // name them as the group that changed it, and with or without them the run is the same
+    let noops: Vec<Vec<&str>> = vec![vec![], vec![""], vec![";; a > o"], vec![";; a > o", "   "], vec!["", ";; x"]];
+    let real = ["a > e", "t > d / V_V", "* > i / _#", "V > [+long] / _#"];
+    let mut tn = 0u64; let mut tn_ok = 0u64;
+    for np in &noops { for r1 in real { for r2 in real { for (wt, _) in words.iter().take(12) {
+        let mk = |name: &str, rs: &[&str]| asca::RuleGroup { name: name.to_string(), rule: rs.iter().map(|x| x.to_string()).collect(), description: String::new() };
+        for groups in [vec![mk("noop", np), mk("first", &[r1])], vec![mk("first", &[r1]), mk("noop", np), mk("second", &[r2])], vec![mk("noop", np), mk("noop", np), mk("first", &[r1])]] {
+            tn += 1;
+            let without: Vec<asca::RuleGroup> = groups.iter().filter(|g| g.name != "noop").cloned().collect();
+            let b = budget_for(wt.chars().count() + 2, 60) * 4;
+            let (Out::Ok(Ok(tr)), Out::Ok(Ok(ts)), Out::Ok(Ok(r_with)), Out::Ok(Ok(r_without))) = (guarded(b, || asca::trace_changes(&groups, wt.clone(), &[])), guarded(b, || asca::get_trace_string(&groups, wt.clone(), &[])), guarded(b, || asca::run(&groups, &[wt.clone()], &[], &[])), guarded(b, || asca::run(&without, &[wt.clone()], &[], &[]))) else { continue };
+            let blamed = tr.iter().any(|c| groups.get(c.rule_index).map(|g| g.name == "noop").unwrap_or(true)) || ts.iter().any(|l| l.contains("\"noop\""));
+            if blamed || r_with != r_without {
+                tot.viols.push(Viol { key: format!("noop-group|{:?}|{}|{}|{}", np, r1, r2, groups.len()), desc: format!("groups {:?} on `{}`: a group without any rule is reported as changing the word (trace {:?}) or changes the result ({:?} vs {:?} without it)", groups.iter().map(|g| (g.name.clone(), g.rule.clone())).collect::<Vec<_>>(), wt, ts, r_with, r_without), case: json!({"rule": "", "word": cw_json(&words[0].1)}) });
+            } else { tn_ok += 1; }
+        }
+    } } } }
+    r.boxes.push(json!({"box": "rule groups without any rule (empty, blank, comment-only) among groups that change the word: never blamed by the tracer, no effect on the run", "cases": tn, "held": tn_ok}));
+    r.guard(tn_ok > 1000, "no-op groups: more than 1000 cases held");
+    tot.evals += tn;
     r.evaluations = tot.evals; r.transitions = tot.evals; r.validated = tot.ok_same; r.nontrivial = tot.ok_same;
     r.states_count_override = Some(words.len() as u64);
     r.outcome("ok_unchanged", tot.ok_same); r.outcome("runtime_error (not a violation of C06)", tot.errs); r.outcome("rules rejected by the parser", tot.rejected); r.outcome("crashed (C02's business)", tot.crashed);
